@@ -117,11 +117,11 @@ class PTPTime(object):
 
     def __lt__(self, val):
         if isinstance(val, PTPTime):
-            return (self.seconds + self.nanoseconds / 1e9) < (val.seconds + val.nanoseconds / 1e9)
+            return (self.seconds, self.nanoseconds) < (val.seconds, val.nanoseconds)
 
     def __le__(self, val):
         if isinstance(val, PTPTime):
-            _d = (self.seconds + self.nanoseconds / 1e9) <= (val.seconds + val.nanoseconds / 1e9)
+            _d = (self.seconds, self.nanoseconds) <= (val.seconds, val.nanoseconds)
             return _d
 
 
